@@ -62,6 +62,36 @@ CLAIMED = {
    note='Trusted: rustc MIR, extractor; multimap API contract (iter = first value per key; iter_all/flat_iter/get_vec = all values); csv builder semantics.',
    technique='static analysis: forbidden-callee / validator-discipline / table-agreement rules over resolved callees in rustc MIR',
    ref='DESIGN.md section 2, C13'),
+
+ 'C14': dict(level='other',
+   text='Sibling cross-check decided on resolved callees: (SB-3) viterbi, forward and backward each consult all four '
+        'probabilistic components of the Model interface (initial, transition, observation, end) - this found that viterbi '
+        'ignored end_prob (likelihood < Viterbi probability for models with end probabilities), fixed in /repo; (SB-4) within every '
+        'Model impl the four accessors read pairwise distinct parameter tables and index them with the method parameters in '
+        'declaration order. Equality with the path-sum/path-max definition and NaN freedom are NOT decided.',
+   note='Trusted: rustc MIR, extractor, call graph incl. closures. A component that is called but combined wrongly is not detected.',
+   technique='static analysis: sibling/interface-coverage rule over the call graph of type-checked MIR',
+   ref='DESIGN.md section 2, C14'),
+ 'C18': dict(level='other',
+   text='Consistency rules decided on the MIR of BitEnc and SmallInts: (UC-1) bit offsets returned by BitEnc::addr are ranged '
+        'over / compared with / subtracted from the field usable_bits_per_block only, never a literal word size - found the '
+        '(bit..32) defect for widths 3,5,6,7, fixed in /repo; (SB-5) new and with_capacity initialise all fields identically and '
+        'assert the same limit, SmallInts push/set/real_value use the same strict threshold against S::max_value(); (GD-7) '
+        'BitEnc::get addresses storage only behind i < len and returns None otherwise, clear resets storage and len. '
+        'Observational equivalence with Vec over all histories and Fenwick trees are NOT decided.',
+   note='Trusted: rustc MIR, extractor. Rules are necessary conditions; the packing arithmetic itself is not verified.',
+   technique='static analysis: unit/belief-consistency and sibling-agreement rules over rustc MIR data flow',
+   ref='DESIGN.md section 2, C18'),
+ 'C19': dict(level='other',
+   text='(CS-1) every q-dependent table of QGramIndex::with_max_count is sized by a shift of q * get_width(), the code space of '
+        'RankTransform::qgrams - found |A|.pow(q) sizing that panics for alphabets whose size is not a power of two, fixed in '
+        '/repo; (SB-6) qgrams, rev_qgrams and get_width compute bits per symbol with the same expression and assert the same '
+        'word-size bound; (TS-8) the vectors returned by find_kmer_matches_seq1_hashed and expand_kmer_matches, and the event '
+        'vectors of lcskpp/sdpkpp, pass through sort after their last push before being returned/read. Exactness of matches and '
+        'optimality of chains are NOT decided.',
+   note='Trusted: rustc MIR, extractor. find_kmer_matches_seq2_hashed is deliberately exempt from TS-8 (its pushes are already in order).',
+   technique='static analysis: data-flow provenance of allocation sizes, sibling agreement, must-pass-through (typestate) on the CFG',
+   ref='DESIGN.md section 2, C19'),
 }
 
 NOT_BUILT = 'rule not built yet (see DESIGN.md section 6)'
